@@ -64,6 +64,7 @@ type c16Cfg struct {
 	Wire   bool     // use the wire driver (peer is loopback)
 	TLS    bool     // needs certificate files
 	NoAuth bool     // skip authenticated endpoints
+	Lenient bool    // the Host matches none of the cookie domains: a browser would refuse the cookies, the harness presents them anyway (name=value from Set-Cookie)
 	OverTLS bool    // every request (login, base and with-headers) goes over the TLS wire driver: the handler sees req.TLS != nil
 	HTTPS  bool     // the harness browser presents Secure cookies (instance itself is driven over plain HTTP)
 }
@@ -72,9 +73,13 @@ func c16Configs(w *vfWorld, run *vfRun) []c16Cfg {
 	wl := []string{"--whitelist-domain=allowed.example.org", "--whitelist-domain=.cookie.example.com"}
 	cd := []string{"--cookie-domain=.cookie.example.com", "--cookie-domain=example.org"}
 	cfgs := []c16Cfg{
-		{Name: "plain", Host: "proxy.test"},
-		{Name: "trusted-ip+skip-auth+api", Host: "proxy.test", Flags: []string{"--trusted-ip=10.0.0.0/8", "--trusted-ip=127.0.0.0/8", "--skip-auth-route=^/open/", "--api-route=^/api/", "--skip-auth-preflight=true"}, Peers: []string{"", "10.5.5.5:40000"}},
-		{Name: "whitelist+cookie-domain", Host: "www.example.org", Flags: append(append([]string{}, wl...), cd...)},
+		{Name: "plain", Host: "proxy.test", Peers: []string{"", "@", "[::1]:1"}},
+		{Name: "trusted-ip+skip-auth+api", Host: "proxy.test", Flags: []string{"--trusted-ip=10.0.0.0/8", "--trusted-ip=127.0.0.0/8", "--skip-auth-route=^/open/", "--api-route=^/api/", "--skip-auth-preflight=true"}, Peers: []string{"", "10.5.5.5:40000", "@"}},
+		{Name: "whitelist+cookie-domain", Host: "www.example.org", Flags: append(append([]string{}, wl...), cd...), Peers: []string{"", "@"}},
+		// several cookie domains and a Host outside all of them (addressed by IP / internal name): the fall-back domain must
+		// not depend on X-Forwarded-Host. "@" is what net/http reports as peer of a unix-socket listener; "unix" / v6 loopback: other odd peers.
+		{Name: "cookie-domains+ip-host", Host: "10.20.30.40:4180", Lenient: true, Flags: append(append([]string{"--skip-auth-route=^/open/"}, wl...), cd...), Peers: []string{"", "@"}},
+		{Name: "cookie-domains3+internal-host", Host: "oauth2-proxy.internal", Lenient: true, Flags: append([]string{"--cookie-domain=example.org", "--cookie-domain=.cookie.example.com", "--cookie-domain=allowed.example.org", "--skip-provider-button=true"}, wl...), Peers: []string{"", "unix"}},
 		{Name: "relative-redirect-url", Host: "proxy.test", Flags: append([]string{"--redirect-url=/oauth2/callback", "--relative-redirect-url=true"}, wl...)},
 		{Name: "absolute-redirect-url", Host: "sub.www.example.org", Flags: append([]string{"--redirect-url=https://fixed.example.com/oauth2/callback"}, cd...)},
 		{Name: "cookie-secure", Host: "proxy.test", HTTPS: true, Flags: append([]string{"--cookie-secure=true"}, wl...)},
@@ -326,6 +331,31 @@ func (x *c16Exec) startLoginTLS(rd string) (*vfBrowser, string, error) {
 	return b, "/oauth2/callback?code=" + vfQueryEscape(code) + "&state=" + vfQueryEscape(ar.Params.Get("state")), nil
 }
 
+// c16CookiePairs: name=value of every non-deleting Set-Cookie line, regardless of Domain / Secure (see c16Cfg.Lenient).
+func c16CookiePairs(resp *vfResp) string {
+	var parts []string
+	for _, line := range resp.SetCookies() {
+		if c, err := http.ParseSetCookie(line); err == nil && c.Value != "" && c.MaxAge >= 0 {
+			parts = append(parts, c.Name+"="+c.Value)
+		}
+	}
+	return strings.Join(parts, "; ")
+}
+
+// startLoginLenient: GET /oauth2/start (no forwarding headers, default peer), code from the IdP; returns the Cookie
+// header to present on the callback and the callback target.
+func (x *c16Exec) startLoginLenient(rd string) (string, string, error) {
+	resp := x.send(vfGET("/oauth2/start?rd=" + vfQueryEscape(rd)).WithHost(x.Cfg.Host))
+	if resp.Code != 302 {
+		return "", "", fmt.Errorf("start: status %d %s", resp.Code, resp.Err)
+	}
+	code, ar, err := x.W.IdP.Authorize(resp.Location(), vfStdIdentity)
+	if err != nil {
+		return "", "", err
+	}
+	return c16CookiePairs(resp), "/oauth2/callback?code=" + vfQueryEscape(code) + "&state=" + vfQueryEscape(ar.Params.Get("state")), nil
+}
+
 // run one execution of endpoint ep with the extra headers hdr from peer.
 func (x *c16Exec) do(ep c16Endpoint, peer string, hdr [][2]string, id string) (*vfReq, *vfResp) {
 	send := x.send
@@ -338,6 +368,15 @@ func (x *c16Exec) do(ep c16Endpoint, peer string, hdr [][2]string, id string) (*
 		if cs := b.Jar.For(x.Cfg.Host, "/oauth2/callback", true); len(cs) > 0 {
 			req.H("Cookie", vfCookieHeader(cs))
 		}
+		req.Headers = append(req.Headers, hdr...)
+		return req, send(req)
+	}
+	if ep.Flow == "callback-valid" && x.Cfg.Lenient {
+		cookie, target, err := x.startLoginLenient("/after?login=1")
+		if err != nil {
+			return nil, &vfResp{Err: "start failed: " + err.Error(), Header: http.Header{}}
+		}
+		req := vfNewReq("GET", target, "X-Vf-Id", id, "X-Request-Id", "c16-fixed-request-id", "Cookie", cookie).WithHost(x.Cfg.Host).From(peer)
 		req.Headers = append(req.Headers, hdr...)
 		return req, send(req)
 	}
@@ -409,6 +448,13 @@ type c16Witness struct {
 	Note         string              `json:"note,omitempty"`
 }
 
+func c16PeerNote(peer string) string {
+	if peer == "" {
+		return ""
+	}
+	return " (peer " + peer + ")"
+}
+
 func c16Pick(f map[string]string, keys []string) map[string]string {
 	out := map[string]string{}
 	for _, k := range keys {
@@ -421,7 +467,7 @@ func c16Pick(f map[string]string, keys []string) map[string]string {
 func TestVerif_C16(t *testing.T) {
 	run := vfNewRun(t, "C16", "exploration")
 	run.SetRule("reverse-proxy off: 27 base requests (protected, skip-auth path, api route, preflight, auth-only, start, sign_in GET/POST, sign_out, callback invalid/error/valid, static, userinfo, ping, robots; anonymous and with session) " +
-		"x all 2^6 subsets of {X-Forwarded-Host,-Proto,-Uri,-For, X-Real-IP, one other client-IP header} x value sets x 10 configurations (trusted IPs, skip-auth/api routes, whitelist + cookie domains, relative/absolute redirect-url, cookie-secure, skip-provider-button, wire driver, force-https over plain HTTP, force-https with every request over a real TLS listener) x peers; " +
+		"x all 2^6 subsets of {X-Forwarded-Host,-Proto,-Uri,-For, X-Real-IP, one other client-IP header} x value sets x 12 configurations (several cookie domains with a Host outside all of them (IP literal / internal name), trusted IPs, skip-auth/api routes, whitelist + cookie domains, relative/absolute redirect-url, cookie-secure, skip-provider-button, wire driver, force-https over plain HTTP, force-https with every request over a real TLS listener) x peers (untrusted, trusted, '@' = unix-socket listener, 'unix', v6 loopback); " +
 		"reverse-proxy on: 5 configured real-client-IP headers x value of that header x subsets of all other forwarding headers. cell = (config, endpoint, header subset, value set) / (rp-on, configured header, its value class, endpoint)")
 	run.Assume("forwarding headers received by the upstream are excluded from the comparison (legitimately passed through; the proxy appends the peer to X-Forwarded-For)",
 		"random parts are masked: nonce, code_challenge, the random half of state, cookie values, href of redirect bodies",
@@ -461,6 +507,16 @@ func TestVerif_C16(t *testing.T) {
 				t.Fatalf("config %s: login over TLS: status %d, %d cookies", cfg.Name, r.Code, len(cs))
 			}
 			x.Cookie = vfCookieHeader(cs)
+		} else if cfg.Lenient {
+			cookie, target, err := x.startLoginLenient("/")
+			if err != nil {
+				t.Fatalf("config %s: %v", cfg.Name, err)
+			}
+			r := x.send(vfGET(target, "Cookie", cookie).WithHost(cfg.Host))
+			x.Cookie = c16CookiePairs(r)
+			if r.Code != 302 || x.Cookie == "" {
+				t.Fatalf("config %s: login: status %d, cookies %q", cfg.Name, r.Code, x.Cookie)
+			}
 		} else if !cfg.NoAuth {
 			b := vfNewBrowser(cfg.Host)
 			b.HTTPS = cfg.HTTPS
@@ -536,7 +592,13 @@ func TestVerif_C16(t *testing.T) {
 				id := fmt.Sprintf("%s-m%d-v%d", idp, mask, vi)
 				req, resp := j.x.do(j.ep, j.peer, hdr, id)
 				obs := c16Observe(w, resp, id)
-				cell := fmt.Sprintf("%s|%s|peer=%v|subset=%02x|%s", cfg.Name, j.ep.Name, j.peer != "", mask, vs.Name)
+				cell := fmt.Sprintf("%s|%s|peer=%s|subset=%02x|%s", cfg.Name, j.ep.Name, j.peer, mask, vs.Name)
+				if j.peer == "@" {
+					run.Count("pairs_with_unix_socket_peer", 1)
+				}
+				if cfg.Lenient {
+					run.Count("pairs_with_host_outside_cookie_domains", 1)
+				}
 				run.Eval(cell)
 				run.Count("pairs", 1)
 				if cfg.OverTLS {
@@ -573,7 +635,7 @@ func TestVerif_C16(t *testing.T) {
 					driver = "wire-tls"
 					run.Count("pairs_over_tls", 0)
 				}
-				run.Violation(c16Sig(d[0]), fmt.Sprintf("reverse-proxy off, config %q, %s: adding %v changes %v (%q -> %q)", cfg.Name, j.ep.Name, hdr, d, vfTrunc(base.Fields[d[0]], 160), vfTrunc(obs.Fields[d[0]], 160)),
+				run.Violation(c16Sig(d[0]), fmt.Sprintf("reverse-proxy off, config %q, %s%s: adding %v changes %v (%q -> %q)", cfg.Name, j.ep.Name, c16PeerNote(j.peer), hdr, d, vfTrunc(base.Fields[d[0]], 160), vfTrunc(obs.Fields[d[0]], 160)),
 					c16Witness{Config: cfg.Name, Flags: j.x.P.Flags, Endpoint: j.ep.Name, Peer: j.peer, Driver: driver, Added: hdr, BaseRequest: baseReq, Request: req, RawRequest: raw,
 						Differing: d, Without: c16Pick(base.Fields, d), With: c16Pick(obs.Fields, d)})
 			}
@@ -587,6 +649,10 @@ func TestVerif_C16(t *testing.T) {
 
 	if run.Counter("pairs_over_tls_served_not_redirected") < 800 {
 		fmt.Printf("INCONCLUSIVE property=C16 reason=too few pairs over the TLS listener (%d served of %d)\n", run.Counter("pairs_over_tls_served_not_redirected"), run.Counter("pairs_over_tls"))
+		t.Fail()
+	}
+	if run.Counter("pairs_with_unix_socket_peer") < 2000 || run.Counter("pairs_with_host_outside_cookie_domains") < 2000 {
+		fmt.Printf("INCONCLUSIVE property=C16 reason=too few pairs with a unix-socket peer (%d) or a Host outside the cookie domains (%d)\n", run.Counter("pairs_with_unix_socket_peer"), run.Counter("pairs_with_host_outside_cookie_domains"))
 		t.Fail()
 	}
 	if run.Counter("pairs_reaching_upstream") < 200 || run.Counter("pairs_with_redirect") < 500 || run.Counter("pairs_with_set_cookie") < 300 || run.Counter("rp_on_pairs") < 500 {
